@@ -354,6 +354,33 @@ class SchedOracle:
             self.fail(['C05'], i, f'thread {t}: unexplained events {evs}')
 
 
+def snap_entries(snap):
+    if not snap or not snap.startswith('['):
+        return None
+    m = re.match(r'\[(.*)\] now=', snap)
+    if not m:
+        return None
+    body_s = m.group(1).strip()
+    return [x.split(':') for x in body_s.split(' ')] if body_s else []
+
+
+def ghost_check(orc, snap, i, q):
+    """independent of the emulator: an entry without value that is unlocked and referenced by nobody (invariant 2 of the source)
+    is a key that is neither valued nor in use"""
+    ents = snap_entries(snap)
+    for e in ents or []:
+        if len(e) >= 4 and e[2] == 'U' and e[1] == '-' and e[3] == '0':
+            orc.fail(['C04', 'C13', 'C14'], i, f'after `{q}`: key {e[0]} is listed although it has no value and nobody references or locks it')
+
+
+def quiescent_check(orc, snap, i, q):
+    """all threads are done: every guard and pending acquisition is gone, exactly the valued keys remain, unlocked"""
+    ents = snap_entries(snap)
+    for e in ents or []:
+        if len(e) >= 4 and (e[1] == '-' or e[2] != 'U' or e[3] != '0'):
+            orc.fail(['C04', 'C14', 'C06'], i, f'all threads are done but key {e[0]} is {":".join(e[1:])} (value:lock:handles)')
+
+
 def check_sched_case(lines):
     """lines: list of (request, reply) of one scheduled case. -> (fails, nontrivial flags)"""
     q0 = lines[0][0].split()
@@ -362,6 +389,7 @@ def check_sched_case(lines):
     flags = dict(blocked=False, switches=0, failed_try=False, evict=False)
     last_t = None
     dead = False
+    unprot = False
     for i, (q, p) in enumerate(lines[1:], 1):
         toks = q.split()
         res, snap = (p.split(' | ', 1) + [None])[:2] if ' | ' in p else (p, None)
@@ -387,6 +415,21 @@ def check_sched_case(lines):
             continue
         if body.startswith('notrunnable') or body.startswith('bad'):
             continue
+        if 'U' in statuses.values() and not unprot:
+            # a per-key mutex is released / a waiter woken outside the global lock: the unchanged library never does
+            # that. The emulator below assumes atomic sections, so from here on only the state-based checks
+            # (which do not depend on it) are evaluated; the deviation itself is reported by the model comparison.
+            unprot = True
+            flags['unprotected'] = True
+        if unprot:
+            ghost_check(orc, snap, i, q)
+            if snap and snap.startswith('[poisoned]'):
+                orc.fail(['C13'], i, 'global lock poisoned')
+            if 'panic' in body:
+                orc.fail(['C13'], i, f'thread {t} panicked: {body[:200]}')
+            if statuses and all(c == 'D' for c in statuses.values()):
+                quiescent_check(orc, snap, i, q)
+            continue
         if 'B' in statuses.values() or 'W' in statuses.values():
             flags['blocked'] = True
         if '=none' in body:
@@ -399,6 +442,7 @@ def check_sched_case(lines):
             orc.fail(['C05'], i, f'oracle cannot follow the trace: {e!r}')
             dead = True
             continue
+        ghost_check(orc, snap, i, q)
         # accounting at every scheduling point
         if snap and snap.startswith('['):
             m = re.match(r'\[(.*)\] now=', snap)
